@@ -104,7 +104,8 @@ example : toString 0x20AC = [0xE2, 0x82, 0xAC] := by decide
 /-! ## fromHex -/
 
 /-- `String::fromHex` of EVERY byte string is its upper-case hexadecimal text (two digits per byte,
-    high nibble first); both alphabet reads stay inside the 16-entry alphabet. -/
+    high nibble first); in particular both alphabet reads stay inside the 16-entry alphabet and both stores
+    per byte inside the `2 * size` bytes of the result (the model checks them: `.ok`, never `.oob`). -/
 theorem hex_upper (bs : List UInt8) :
     fromHex (bs.map UInt8.toNat) = .ok (Spec.upperHex (bs.map UInt8.toNat)) := by
   apply fromHex_upper
